@@ -1569,6 +1569,10 @@ mismatch between values and axes""".format(inferred, self.values.shape)
         0 / year (4): 1900 to 1903
         array([1, 2, 3, 4])
         """
+        if name is not None:
+            pos, _ = self._get_axis_info(axis)
+            if name in [ax.name for i, ax in enumerate(self.axes) if i != pos]:
+                raise ValueError("axis name already exist: {}".format(name))
         if not inplace: self = self.copy()
         self.axes[axis].set(values=values, inplace=True, name=name, **kwargs)
         if not inplace: return self
